@@ -79,6 +79,7 @@ struct websocket {
 	bool upgrade_complete;
 
 	uint8_t sec_web_socket_key[SEC_WEB_SOCKET_KEY_LENGTH + SEC_WEB_SOCKET_GUID_LENGTH];
+	bool sec_web_socket_key_received;
 	enum header_field current_header_field;
 
 	struct {
